@@ -170,3 +170,10 @@ def shard(ctx):
         smi = gen_mol.write(m, ch)["smiles"]
         return dict(kind="encoder_output", smiles=smi, table={"?": 12})
     ctx.drive("spelled", gen_spelled, ctx.n(500, 8000), max_bytes=600)
+
+    def gen_text(ch):
+        # SMILES-like text (fragment dictionary with doubled dots, empty branches, odd labels; mutated corpus entries):
+        # whatever the encoder returns for it must be well formed as well
+        from vf import gen_text as GT
+        return dict(kind="encoder_output", smiles=GT.gen_smiles_text(ch)[:800], table=ch.pick(["default", "hypervalent", {"?": 12}]))
+    ctx.drive("text", gen_text, ctx.n(1000, 15000), max_bytes=600)
